@@ -9,6 +9,8 @@ TB_COMMON = [
 ]
 
 NOT_YET = {}
+# specs present but not claimed right now (proofs under repair after a cross-branch model change)
+DISABLED = {"C14"}
 
 SPECS = {
     "C18": {
@@ -57,6 +59,29 @@ SPECS = {
         },
         "assumptions": ["u64 indexes (<= 2^64-1) for the joint 'largest' statement"],
     },
+    "C14": {
+        "id": "C14", "kind": "component", "component": "raftlog",
+        "run_module": "Run.RunRaftLog", "runfun": "run_raftlog",
+        "gens": [
+            {"prefix": "raftlog-exh", "args": {"quick": ["--mode", "exhaustive", "--depth", "4"],
+                                                "thorough": ["--mode", "exhaustive", "--depth", "5"]}},
+            {"prefix": "raftlog-rnd", "args": {"quick": ["--mode", "random", "--count", "2000", "--len", "150"],
+                                                "thorough": ["--mode", "random", "--count", "20000", "--len", "200"]}},
+        ],
+        "incoq": {"quick": 120, "thorough": 500},
+        "nontrivial_tokens": 10,
+        "rule": "cases = (exhaustive) breadth-first over every distinct full state (RaftLog pub fields + MemStorage contents) reachable within depth-1 operations from 5 initial stores (empty, 2-3 entries with terms <= 3, snapshot points), log length <= 5; from every such state one case per operation of the full alphabet (append / maybe_append with agreeing and conflicting entries at every index from first-1 to last+2, i.e. every position relative to unstable.offset / persisted / committed; commit_to, maybe_commit, applied_to, stable_entries, stable_snap, restore, maybe_persist, maybe_persist_snap, storage append/apply_snapshot/compact/commit_to, restart, raw Unstable::truncate_and_append, non-contiguous and out-of-contract arguments) and a query battery (term, match_term, find_conflict, find_conflict_by_term for every index and term 0..3, is_up_to_date, slice for every lo<=hi with size limits 0 / each prefix-sum boundary -1,+0,+1 / NO_LIMIT, entries, next_entries* under limits 0,1,u64::MAX-1,u64::MAX, snapshot, commit_info, Unstable::{maybe_term,slice,must_check_outofbounds}); (random) seeded Ready-contract sequences of 150-200 operations with data lengths 0..160 (two thirds fully valid, one third with occasional invalid choices) + a malformed stream (u64::MAX / 2^63 arguments). Every case compares each operation's result (value / storage error code / panic site) and after every mutator the full state dump incl. all logical entries via slice; non-trivial = at least one operation; distinct = distinct case lines",
+        "explanation": "Theorems for all states and all operation sequences (unbounded): Props/C14.v (72 statements: abs/RepInv, every query = plain-sequence definition, every mutator = list operation preserving RepInv, slice = limit_size of the plain range with the non-empty maximal prefix property, committed_immutable with the exact fatal cases, persisted_sound, history invariants, refuted variants with witnesses). Tie: lockstep differential of M/RaftLog.v (over M/MemStorage.v) against raft::RaftLog<MemStorage> on every run + vm_compute sample; independent plain-sequence monitor (vharness raftlog --mode monitor) used for searching a failing input.",
+        "trusted_base": TB_COMMON + ["RaftLog/Unstable pub fields and MemStorage public API read directly; panic sites identified by message text and enclosing function of the panic location",
+                                     "modelled not verified: src/raft_log.rs, src/log_unstable.rs (all pub methods; scan specialised), util::limit_size, entry compute_size; model assumption: indexes held in the log are < 2^64-1-length so the unchecked index+1 / offset+len additions do not wrap (caller-supplied arithmetic is modelled with overflow sites)"],
+        "manifest": {
+            "technique": "machine-checked proof in Coq (abstraction function to a plain sequence, representation invariant, per-operation refinement, induction over histories) + model/implementation correspondence by differential execution",
+            "text": "Props/C14.v (72 pinned theorems, all states / all operation sequences): with abs = storage entries below unstable.offset ++ unstable entries (base from the pending snapshot else the storage) and a representation invariant established by RaftLog::new, every query (term, first/last index, match_term, find_conflict, find_conflict_by_term incl. termination of its loop, is_up_to_date, slice, entries, next_entries_since, commit_info) equals its plain-sequence definition; append / maybe_append / commit_to / maybe_commit / applied_to / restore / stable_entries+storage append / stable_snap+apply_snapshot / maybe_persist(_snap) / compaction <= applied act as the obvious list operations and preserve the invariant, so along every history applied <= committed <= last, persisted <= storage last with matching terms, commit index and base are monotone and no entry at or below any earlier commit index changes; size-limited reads return a non-empty maximal prefix; the fatal cases are exactly append-below-commit and conflict-at-or-below-commit. Refuted (with witnesses): a raw truncating append at or below persisted keeps persisted; maybe_persist_snap before the snapshot reached the storage; stable_entries before the storage write; persisted+limit overflow. The model is tied to src/raft_log.rs + src/log_unstable.rs on every run by exhaustive small-scope + random differential over results, panic sites and full state.",
+            "design_ref": "DESIGN.md section 7, C14",
+            "note": "Trusted: Coq kernel; hand-written model validated by differential execution; extraction + OCaml driver cross-checked by vm_compute; Rust harness; debug-build semantics; MemStorage as the conforming Storage (its model is C19's). No axioms.",
+        },
+        "assumptions": ["debug-build semantics", "stored indexes < 2^64-1-length (no wrap of index+1)", "storage test triggers (trigger_log_unavailable / trigger_snap_unavailable) off", "Ready contract order: storage write before stable_entries / stable_snap (the async order is outside the invariant; witness stable_before_write_refuted)"],
+    },
 }
 
 SPECS["C12"] = {
@@ -85,6 +110,31 @@ SPECS["C12"] = {
     "assumptions": ["overlap theorems require a non-empty voter set before the change (C12_overlap_bootstrap_refuted shows why)"],
 }
 
+SPECS["C19"] = {
+    "id": "C19", "kind": "component", "component": "memstorage",
+    "run_module": "Run.RunMemStorage", "runfun": "run_memstorage",
+    "gens": [
+        {"prefix": "memstorage-exh", "args": {"quick": ["--mode", "exhaustive", "--depth", "3"],
+                                               "thorough": ["--mode", "exhaustive", "--depth", "4"]}},
+        {"prefix": "memstorage-rnd", "args": {"quick": ["--mode", "random", "--count", "3000"],
+                                               "thorough": ["--mode", "random", "--count", "30000"]}},
+    ],
+    "incoq": {"quick": 60, "thorough": 300},
+    "nontrivial_tokens": 5,
+    "rule": "cases = every sequence of MemStorage mutations (append of 1-2 entries at every position incl. overwriting and illegal gap/compacted positions, compact(idx) for all idx to last+2, apply_snapshot at several (index, term) incl. out-of-date, commit_to, hard-state/conf-state updates, trigger flags) up to the tier's depth over indexes <= 6 / terms <= 3, each followed by a battery of queries (term(i) around the window, entries(lo,hi,max) for all lo<=hi incl. empty ranges and one beyond, max in {0, boundary sizes, NO_LIMIT}, snapshot(request_index)); plus seeded random sequences of length 60 with payload lengths crossing varint boundaries; results, errors, panic sites and the observable state compared; non-trivial = at least one operation; distinct = distinct case lines",
+    "explanation": "Theorems for all histories: Props/C19.v (40 statements: representation invariant, every mutator refines the sequence model under its documented precondition and panics/errs as documented outside it, first/last/term/entries characterised incl. non-empty maximal prefix under the size limit, snapshot at the commit index, history theorem). Tie: lockstep differential of M/MemStorage.v against raft::storage::MemStorage on every run + vm_compute sample. The empty-range read on an empty store was a genuine defect, fixed in /repo (see known_findings.txt).",
+    "trusted_base": TB_COMMON + ["private snapshot_metadata observed by probing term(); conf_state through initial_state()",
+                                 "modelled not verified: src/storage.rs MemStorageCore/MemStorage, util::limit_size, Entry::compute_size (exact protobuf size function re-derived by hand from the generated code)",
+                                 "the RwLock of MemStorage (thread interleavings) is outside the model"],
+    "manifest": {
+        "technique": "machine-checked proof in Coq (refinement of MemStorage to a snapshot-point + contiguous-entries sequence model, induction over histories) + model/implementation correspondence by differential execution",
+        "text": "Props/C19.v (40 pinned theorems, all operation histories): under the documented preconditions every MemStorage mutator preserves the representation invariant and acts as the obvious operation on a snapshot point followed by contiguous entries; first/last index, term and entries equal the model's answers, with Compacted/Unavailable exactly outside the held range, size-limited reads returning a non-empty maximal prefix, the empty in-range read returning Ok([]) (after the fix of the genuine defect found here), and a snapshot taken at the stored commit index carrying that index's term, the stored configuration and an index >= the requested one; outside the preconditions the documented panics. Tied to src/storage.rs on every run by exhaustive small-scope + random differential.",
+        "design_ref": "DESIGN.md section 7, C19",
+        "note": "Trusted: Coq kernel; hand-written model validated by differential execution; extraction + OCaml driver cross-checked by vm_compute; Rust harness; exact protobuf entry size transcribed by hand. No axioms.",
+    },
+    "assumptions": ["mutations within their documented preconditions for the refinement statements; byte lengths < 2^32"],
+}
+
 TB_NODE = TB_COMMON + [
     "hooks in /repo under cfg(tikv_raft_rs_verif): read-only views of private RaftCore/RawNode fields; election-timeout recorder/override (the drawn value is an oracle input of the model)",
     "cluster simulator /verif/harness/src/sim.rs (event alphabet, contract-abiding application, SimStorage = MemStorage with the application's own snapshot); dump/encode code harness/src/node.rs; outbound messages compared after a stable sort by destination (hash iteration order not modelled)",
@@ -93,9 +143,9 @@ TB_NODE = TB_COMMON + [
 ]
 
 
-def node_spec(pid, projection, monitor, text, partial, design_ref, explanation, extra_assumptions=()):
+def node_spec(pid, projection, monitor, text, partial, design_ref, explanation, extra_assumptions=(), acceptor=None):
     return {
-        "id": pid, "kind": "node", "projection": projection, "monitor": monitor,
+        "id": pid, "kind": "node", "projection": projection, "monitor": monitor, "acceptor": acceptor,
         "incoq": {"quick": 40, "thorough": 200},
         "trusted_base": TB_NODE,
         "explanation": explanation,
@@ -122,3 +172,21 @@ SPECS["C03"] = node_spec(
     "leader completeness over executions (invariant LC) is not yet proved.",
     "DESIGN.md section 7, C03",
     "Theorems: Props/C03.v. Tie: pointwise differential, projection hard+log+vote traffic.")
+
+P_NOTE = " The abstract protocol P/Election.v is tied to the code by the executable acceptor P/ElectionAccept.v (proved sound: an accepted trace is a P execution), run on the P-level event trace (per-call term/vote/role, hard-state hand-out and fsync, released vote requests/grants/leader traffic, crashes, restarts) of every simulated execution up to its first applied membership change."
+
+SPECS["C02"] = node_spec(
+    "C02", ["hard", "msgs.vote"], "election_safety",
+    "Props/C02.v: in every execution of the abstract election protocol (any interleaving of campaigns, grants, hand-out/fsync of hard states, releases, duplicated/delayed/reordered messages, crashes at any point, restarts from the durable image; pre-vote/check-quorum/priority/transfer over-approximated by free choice) at most one node ever takes the leader role in a term when no single node is a quorum, and for every configuration (single-voter groups included) leaders with a durable own vote are unique per term and at most one node ever releases traffic as leader of a term; the role-level statement is refuted with an explicit witness for a single voter whose own vote need not be durable (the defect F1 found and fixed in /repo)." + P_NOTE,
+    "the voter configuration is fixed within an execution: elections racing single-step or joint membership changes are not covered by the theorems (only by the pointwise differential and the monitor).",
+    "DESIGN.md section 7, C02; section 2.2-2.3",
+    "Theorems: Props/C02.v over P/Election.v. Ties: (B) acceptor on P-level traces; (A) pointwise differential of M/Raft.v on hard state + vote traffic.",
+    acceptor="pelection")
+
+SPECS["C06"] = node_spec(
+    "C06", ["hard", "result", "rawnode", "msgs.vote", "msgs.resp"], "persist_before_send",
+    "Props/C06.v: in every execution of the abstract election protocol a node grants at most one candidate its vote in any term, ever (across crashes and restarts); every released vote grant, vote request and leader message is covered by the sender's durable (term, vote) and by its volatile state, so a restart from stable storage is never behind what it told others; within an incarnation the term never decreases." + P_NOTE + " The Ready-level release discipline (which messages a Ready holds back until persistence) is tied by the pointwise differential on Ready contents and RawNode bookkeeping.",
+    "append acknowledgements and the log part of 'never behind' need the log layer of P and are not yet proved.",
+    "DESIGN.md section 7, C06; section 2.2-2.3",
+    "Theorems: Props/C06.v over P/Election.v. Ties: (B) acceptor on P-level traces; (A) pointwise differential on Ready contents, records, hard state.",
+    acceptor="pelection")
